@@ -13,6 +13,7 @@
 package reputil
 
 import (
+	"errors"
 	"fmt"
 	"net"
 	"strconv"
@@ -76,6 +77,10 @@ func Send(p *world.Proc, ip net.IP, port int, payload []byte) string {
 	case !ok:
 		return "panic:" + txt
 	case err != nil:
+		var oe *net.OpError
+		if errors.As(err, &oe) && oe.Op == "dial" {
+			return "infra" // the harness could not reach miniredis (port exhaustion under load): the history is retried
+		}
 		return "err"
 	case resp == nil:
 		return "none"
@@ -84,10 +89,36 @@ func Send(p *world.Proc, ip net.IP, port int, payload []byte) string {
 	}
 }
 
-// RunHistory executes a whole history on a fresh world with one logical process.
+// FreshWorld returns an empty world at world.Epoch with its own miniredis (world.New; the redis clients talk
+// to it through world's in-memory transport, so no TCP connection is made per case).
+func FreshWorld() (w *world.World, release func()) {
+	w = world.New(world.DefaultOptions())
+	return w, w.Close
+}
+
+// RunHistory executes a whole history on a fresh world with one logical process.  A history during which the
+// harness itself failed to connect to miniredis is run again from scratch.
 func RunHistory(args []string) []string {
-	w := world.New(world.DefaultOptions())
-	defer w.Close()
+	var out []string
+	for try := 0; try < 40; try++ {
+		out = runHistoryOnce(args)
+		infra := false
+		for _, t := range out {
+			if t == "infra" {
+				infra = true
+			}
+		}
+		if !infra {
+			return out
+		}
+		time.Sleep(250 * time.Millisecond)
+	}
+	return out
+}
+
+func runHistoryOnce(args []string) []string {
+	w, release := FreshWorld()
+	defer release()
 	p := w.NewProc()
 	var out []string
 	prev := "-"
